@@ -88,9 +88,36 @@ ShapeIds == IF Full THEN OneAtATime \cup Product ELSE OneAtATime
 
 \* the bulk mutation families (every boundary, every field) are applied to the one-at-a-time
 \* shapes (quick tier: only those with at most one input and one output)
-Bulk(id) == id \in OneAtATime /\ (Full \/ (Len(id[1]) <= 1 /\ Len(id[2]) <= 1))
+Bulk(id) == IF id \in OneAtATime /\ (Full \/ (Len(id[1]) <= 1 /\ Len(id[2]) <= 1)) THEN "yes" ELSE "no"
 
 ShapeOf(id) == Mk(id[1], id[2], id[3], id[4], id[5])
+
+(* Structures at exactly the limits shared by encoder and decoder (SliceCountLimit = 256 keys,
+   inputs, outputs, references, signature maps; a total length of exactly TxMaxSize). *)
+Rep(x, n) == [i \in 1..n |-> x]
+LimitBase == Mk(<<"utxo">>, <<"script">>, 0, 0, "none")
+LimitShapes ==
+    { [LimitBase EXCEPT !.outs[1].keys = [i \in 1..SliceLimit |-> 5000 + i]],               \* 256 keys
+      [LimitBase EXCEPT !.outs[1].keys = [i \in 1..(SliceLimit - 1) |-> 5000 + i]],         \* 255 keys
+      [LimitBase EXCEPT !.ins = [i \in 1..SliceLimit |-> In("utxo", i)]],                   \* 256 inputs
+      [LimitBase EXCEPT !.outs = [i \in 1..SliceLimit |-> Out("zero", i)]],                 \* 256 outputs
+      [LimitBase EXCEPT !.refs = [i \in 1..SliceLimit |-> 6000 + i]],                       \* 256 references
+      [LimitBase EXCEPT !.sigs.maps = [i \in 1..SliceLimit |->                              \* 256 signature maps
+                                         IF i = 1 THEN <<[idx |-> 0, sig |-> 81]>> ELSE <<>>]],
+      \* extra such that the encoding is exactly TxMaxSize bytes long
+      [Mk(<<>>, <<>>, 0, 0, "none") EXCEPT !.extra = B(TxMaxSize - 48, 95)] }
+
+\* few mutations on them: untouched, one byte less / more, every counter one above its limit
+MutsLimit(tx) ==
+    LET t == TxTokens(tx)
+        F(f) == Idx(t, f)
+        one(X) == IF X = {} THEN {} ELSE {CHOOSE i \in X : \A j \in X : i <= j}
+    IN  { <<m, NoMut>> : m \in {NoMut, MTrunc(1), MExt(1, 0)}
+                               \cup { MSet(i, SliceLimit + 1) : i \in F("incnt") \cup F("outcnt") \cup F("refcnt")
+                                                                      \cup one(F("keycnt")) \cup F("slcnt") } }
+        \* one more key / reference than the limit, consistently encoded
+        \cup { <<MSet(i, t[i].v + 1), MInsNew(i + 1, 32, 99999)>> :
+                 i \in { j \in F("refcnt") \cup one(F("keycnt")) : t[j].v = SliceLimit } }
 
 (* ------------------------------- mutations ------------------------------ *)
 AmtLens == {"depamtlen", "mintamtlen", "oamtlen"}
@@ -158,11 +185,19 @@ Expected(x) == TxParse(CaseTokens(x)).verdict
 Rec(kind, s, m1, m2, f, s2, bulk) ==
     [kind |-> kind, shape |-> s, mut |-> m1, mut2 |-> m2, f |-> f, shape2 |-> s2, bulk |-> bulk]
 
-Init == c \in { Rec("shape", ShapeOf(id), NoMut, NoMut, "-", 0, Bulk(id)) : id \in ShapeIds }
+\* bulk \in {"yes", "no"} for the enumerated shapes, "limit" for the shapes at the limits.
+\* A single root state: everything else is evaluated by the TLC workers (large stack), not by
+\* the JVM main thread that computes initial states.
+Init == c = Rec("root", 0, NoMut, NoMut, "-", 0, "no")
 Next ==
-    /\ c.kind = "shape"
-    /\ c' \in { Rec("dec", c.shape, mm[1], mm[2], "-", 0, c.bulk) : mm \in Muts(c.shape, c.bulk) }
-              \cup { Rec("pair", c.shape, NoMut, NoMut, pp[1], pp[2], c.bulk) : pp \in Perturbations(c.shape) }
+    \/ /\ c.kind = "root"
+       /\ c' \in { Rec("shape", ShapeOf(id), NoMut, NoMut, "-", 0, Bulk(id)) : id \in ShapeIds }
+                 \cup { Rec("shape", s, NoMut, NoMut, "-", 0, "limit") : s \in LimitShapes }
+    \/ /\ c.kind = "shape" /\ c.bulk = "limit"
+       /\ c' \in { Rec("dec", c.shape, mm[1], mm[2], "-", 0, c.bulk) : mm \in MutsLimit(c.shape) }
+    \/ /\ c.kind = "shape" /\ c.bulk # "limit"
+       /\ c' \in { Rec("dec", c.shape, mm[1], mm[2], "-", 0, c.bulk) : mm \in Muts(c.shape, c.bulk = "yes") }
+                 \cup { Rec("pair", c.shape, NoMut, NoMut, pp[1], pp[2], c.bulk) : pp \in Perturbations(c.shape) }
 Spec == Init /\ [][Next]_c
 
 InvDec == c.kind = "dec" => Canonical(CaseTokens(c))
@@ -177,6 +212,7 @@ NoReplReject == ~(c.kind = "dec" /\ c.mut.op = "Repl" /\ Expected(c) = "reject")
 NoAny == ~(c.kind = "dec" /\ Expected(c) = "any")
 
 EmitCase ==
+    IF c.kind = "root" THEN TRUE ELSE
     IF c.kind = "shape"
     THEN PrintT("CASE " \o ToJson([kind |-> "shape", shape |-> c.shape, lens |-> Lens(TxTokens(c.shape))]))
     ELSE IF c.kind = "dec"
